@@ -345,6 +345,15 @@ def _deficit_zero(c: Term, env: Dict[Term, Term]) -> Optional[bool]:
         if (a is False and b is not None) or (b is False and a is not None):
             return False
         return None
+    if is_call(c, 'builtins.sum', 'torch.sum') and len(c[2]) >= 1 and c[2][0][0] == 'comp' and \
+            len(c[2][0][2]) == 1 and all(not g[2] for g in c[2][0][3]):
+        # sum(f(i, p) for p in ...): zero iff the summand is zero for an arbitrary p (the
+        # comprehension variable stays free); positive if the summand is certainly positive
+        start = _deficit_zero(c[2][1], env) if len(c[2]) > 1 else True
+        z = _deficit_zero(c[2][0][2][0], env)
+        if z is True and start is True:
+            return True
+        return None
     if c[0] == 'ifexp':
         t = poly.simplify_truth(poly.substitute(c[1], env), env)
         a, b = _deficit_zero(c[2], env), _deficit_zero(c[3], env)
